@@ -96,7 +96,7 @@ M = [
  ("repetition-board-passes-other-turn", "src/board/mod.rs", "        self.position_info.count_current_position(self.turn)", "        self.position_info.count_current_position(self.turn.opposite())", "violation", ["C17"]),
  ("benign-repetition-get-copied", "src/board/position_info.rs", "        let count = *self.position_count.get(&key).unwrap();\n        self.max_seen_position_count_stack.push(count);\n        count", "        let count = *self.position_count.get(&key).unwrap();\n        let reported = count;\n        self.max_seen_position_count_stack.push(reported);\n        reported", "ok", ["C17"]),
  ("game-forgets-history", "src/game/game.rs", "            Ok(_capture) => {\n                self.save_move(chess_move.clone());\n                self.register_position_after_move();\n                Ok(())", "            Ok(_capture) => {\n                self.register_position_after_move();\n                Ok(())", "violation", ["C17"]),
- ("annotate-forgets-undo", "src/move_generator/mod.rs", "            ChessMoveEffect::None\n        };\n        chess_move.undo(board).unwrap();\n", "            ChessMoveEffect::None\n        };\n", "undecided", ["C06"]),   # Z3 runs into the resource limit instead of refuting: exit 2
+ ("annotate-forgets-undo", "src/move_generator/mod.rs", "            ChessMoveEffect::None\n        };\n        chess_move.undo(board).unwrap();\n", "            ChessMoveEffect::None\n        };\n", "violation|undecided", ["C06"]),   # refuted, or (depending on the shard layout) Z3 runs into the resource limit: exit 1 or 2, never 0
  # ---- the Game API (C14 coordinate pairs, C15 engine move)
  ("game-find-ignores-to-square", "src/game/game.rs", "            .find(|m| m.from_square() == from_square && m.to_square() == to_square)\n            .ok_or(GameError::InvalidMove)?;\n        self.apply_chess_move(chess_move.clone())?;", "            .find(|m| m.from_square() == from_square)\n            .ok_or(GameError::InvalidMove)?;\n        self.apply_chess_move(chess_move.clone())?;", "violation", ["C14"]),
  ("game-coordinates-not-recorded", "src/game/game.rs", "            Ok(_capture) => {\n                self.save_move(chess_move.clone());\n                self.register_position_after_move();\n                Ok(())", "            Ok(_capture) => {\n                self.register_position_after_move();\n                Ok(())", "violation", ["C14"]),
@@ -189,8 +189,9 @@ def run_one(m):
                                stderr=subprocess.STDOUT, text=True, cwd=VERIF)
             lines = [l for l in r.stdout.split('\n') if l.startswith(('VIOLATION', 'UNDECIDED', 'OK', 'KNOWN'))]
             res[pid] = {'rc': r.returncode, 'lines': [l[:260] for l in lines if not l.startswith('KNOWN')][:4]}
-        want = {'violation': 1, 'ok': 0, 'undecided': 2}[expected]
-        verdict = 'as-expected' if any(v['rc'] == want for v in res.values()) and (expected != 'ok' or all(v['rc'] == 0 for v in res.values())) else 'UNEXPECTED'
+        # 'violation|undecided': a defect the check either refutes or (Z3 resource limit) leaves undecided - never OK
+        want = [{'violation': 1, 'ok': 0, 'undecided': 2}[e] for e in expected.split('|')]
+        verdict = 'as-expected' if any(v['rc'] in want for v in res.values()) and (expected != 'ok' or all(v['rc'] == 0 for v in res.values())) else 'UNEXPECTED'
         return {'name': name, 'file': rel, 'expected': expected, 'results': res, 'verdict': verdict}
     finally:
         shutil.rmtree(tmp, ignore_errors=True)
